@@ -41,7 +41,7 @@
  "name": "ht_dx_search_entry_1k",
  "props": ["C10", "C06"],
  "level": "U/k",
- "tier": "quick",
+ "tier": "thorough",
  "harness": "h_search",
  "enforce": ["dx_search_entry"],
  "defines": ["HX_BS=1024", "EXT2_CUSTOM_MEMORY_ROUTINES"],
@@ -58,7 +58,7 @@
  "name": "ht_dx_search_entry_4k",
  "props": ["C10", "C06"],
  "level": "U/k",
- "tier": "thorough",
+ "tier": "wip",
  "harness": "h_search",
  "enforce": ["dx_search_entry"],
  "defines": ["HX_BS=4096", "EXT2_CUSTOM_MEMORY_ROUTINES"],
@@ -106,16 +106,33 @@
 */
 /* VERIF-UNIT
 {
- "name": "ht_dx_lookup_256",
+ "name": "ht_dx_lookup_128",
  "props": ["C10", "C06"],
  "level": "U/k",
  "tier": "quick",
+ "harness": "h_lookup",
+ "defines": ["HX_BS=128", "EXT2_CUSTOM_MEMORY_ROUTINES"],
+ "sources": ["lib/ext2fs/csum.c"],
+ "unwind": 6,
+ "unwind_reason": "at most EXT4_HTREE_LEVEL = 3 index levels (loop over levels, dx_release); binary search over at most (128-8)/8 = 15 entries: at most 4 iterations; unwinding assertions on",
+ "timeout": 600,
+ "functions": ["lib/ext2fs/link.c:dx_lookup", "lib/ext2fs/link.c:dx_search_entry", "lib/ext2fs/link.c:load_logical_dir_block", "lib/ext2fs/link.c:dx_release", "lib/ext2fs/link.c:alloc_dx_frame", "lib/ext2fs/csum.c:__get_dx_countlimit"],
+ "assumes": ["SYMBOLIC BLOCKS OF 128 BYTES with ARBITRARY contents (smaller than a legal ext2 block; the code depends on the block size only through comparisons; 256 B: ht_dx_lookup_256, 1 KiB: ht_dx_lookup_1k)", "stubs: ext2fs_get_mem hands out three distinct block-sized buffers or fails; ext2fs_free_mem records the release; ext2fs_bmap2 returns an arbitrary error / flags / physical block and records the logical block asked for; ext2fs_read_dir_block4 returns an arbitrary error and leaves arbitrary bytes in the buffer; ext2fs_dirhash2 returns an arbitrary error or an arbitrary hash and records the version it was asked for (the hash itself: proofs/htree/dirhash.c)", "superblock s_flags and feature words arbitrary; inode i_flags arbitrary", "a block 0 that csum.c:__get_dx_countlimit reads as a dx NODE (first rec_len == blocksize) is walked with entries at byte 8 although dx_lookup takes hash version / levels from byte 24 (kernel: always 24 + info_length): accepted here as an observation on corrupted directories, safety and the cover property are checked for it too"],
+ "native": false
+}
+*/
+/* VERIF-UNIT
+{
+ "name": "ht_dx_lookup_256",
+ "props": ["C10", "C06"],
+ "level": "U/k",
+ "tier": "thorough",
  "harness": "h_lookup",
  "defines": ["HX_BS=256", "EXT2_CUSTOM_MEMORY_ROUTINES"],
  "sources": ["lib/ext2fs/csum.c"],
  "unwind": 7,
  "unwind_reason": "at most EXT4_HTREE_LEVEL = 3 index levels (loop over levels, dx_release); binary search over at most (256-8)/8 = 31 entries: at most 5 iterations; unwinding assertions on",
- "timeout": 600,
+ "timeout": 1200,
  "functions": ["lib/ext2fs/link.c:dx_lookup", "lib/ext2fs/link.c:dx_search_entry", "lib/ext2fs/link.c:load_logical_dir_block", "lib/ext2fs/link.c:dx_release", "lib/ext2fs/link.c:alloc_dx_frame", "lib/ext2fs/csum.c:__get_dx_countlimit"],
  "assumes": ["SYMBOLIC BLOCKS OF 256 BYTES with ARBITRARY contents (smaller than a legal ext2 block; the code depends on the block size only through comparisons; 1 KiB: ht_dx_lookup_1k)", "stubs: ext2fs_get_mem hands out three distinct block-sized buffers or fails; ext2fs_free_mem records the release; ext2fs_bmap2 returns an arbitrary error / flags / physical block and records the logical block asked for; ext2fs_read_dir_block4 returns an arbitrary error and leaves arbitrary bytes in the buffer; ext2fs_dirhash2 returns an arbitrary error or an arbitrary hash and records the version it was asked for (the hash itself: proofs/htree/dirhash.c)", "superblock s_flags and feature words arbitrary; inode i_flags arbitrary", "a block 0 that csum.c:__get_dx_countlimit reads as a dx NODE (first rec_len == blocksize) is walked with entries at byte 8 although dx_lookup takes hash version / levels from byte 24 (kernel: always 24 + info_length): accepted here as an observation on corrupted directories, safety and the cover property are checked for it too"],
  "native": false
@@ -126,7 +143,7 @@
  "name": "ht_dx_lookup_1k",
  "props": ["C10", "C06"],
  "level": "U/k",
- "tier": "thorough",
+ "tier": "wip",
  "harness": "h_lookup",
  "defines": ["HX_BS=1024", "EXT2_CUSTOM_MEMORY_ROUTINES"],
  "sources": ["lib/ext2fs/csum.c"],
@@ -172,6 +189,14 @@ struct in_dx {
 struct in_dx IN;
 #include "verif_in.h"
 
+/* with EXT2_CUSTOM_MEMORY_ROUTINES ext2fs.h leaves the allocation wrappers to the application: prototypes first, stubs below */
+#include "config.h"
+#include "ext2_fs.h"
+#include "ext2fs.h"
+errcode_t ext2fs_get_mem(unsigned long size, void *ptr);
+errcode_t ext2fs_get_array(unsigned long count, unsigned long size, void *ptr);
+errcode_t ext2fs_free_mem(void *ptr);
+
 #include "lib/ext2fs/link.c"
 
 static unsigned char BLK[HX_BS] __attribute__((aligned(8)));
@@ -186,7 +211,7 @@ static struct dx_lookup_info INFO;
 
 static void dx_search_entry(struct dx_frame *frame, int count, __u32 hash)
 	REQUIRES(frame == &FR && FR.entries == (struct ext2_dx_entry *)(BLK + EO))
-	REQUIRES(count >= 1 && EO + 8u * (unsigned)count <= BS)
+	REQUIRES(count >= 1 && (unsigned)count <= (BS - EO) / 8u)
 	ENSURES(FR.at >= FR.entries && FR.at < FR.entries + count)
 	ENSURES(HX_COVERS(BLK, EO, (unsigned)count, (unsigned)(FR.at - FR.entries), hash))
 	ASSIGNS(FR.at);
@@ -195,7 +220,7 @@ void h_search(void)
 {
 	LOAD_IN();
 	{ unsigned char nd[HX_BS]; __CPROVER_array_replace(BLK, nd); }	/* arbitrary node bytes */
-	ASSUME(IN.eo_root <= 1 && IN.count >= 1 && EO + 8u * IN.count <= BS);
+	ASSUME(IN.eo_root <= 1 && IN.count >= 1 && IN.count <= (BS - EO) / 8u);
 	FR.buf = BLK;
 	FR.head = (struct ext2_dx_countlimit *)(BLK + EO);
 	FR.entries = (struct ext2_dx_entry *)(BLK + EO);
@@ -348,7 +373,9 @@ void h_insert(void)
 
 /* ------------------------------------------------------------------ dx_lookup */
 
-static unsigned char POOL[3][HX_BS] __attribute__((aligned(8)));
+/* three separate block buffers (separate objects: one per index level) */
+static unsigned char P0[HX_BS] __attribute__((aligned(8))), P1[HX_BS] __attribute__((aligned(8))), P2[HX_BS] __attribute__((aligned(8)));
+#define POOL(i) ((i) == 0 ? P0 : (i) == 1 ? P1 : P2)
 static int g_allocs, g_frees, g_bad_free;
 static unsigned g_freed_mask;
 static int g_bmaps, g_reads;
@@ -366,7 +393,7 @@ errcode_t ext2fs_get_mem(unsigned long size, void *ptr)
 	if (n >= 3 || IN.alloc_fail[n])
 		return EXT2_ET_NO_MEMORY;
 	g_allocs = n + 1;
-	*(void **)ptr = POOL[n];
+	*(void **)ptr = POOL(n);
 	return 0;
 }
 
@@ -375,7 +402,7 @@ errcode_t ext2fs_free_mem(void *ptr)
 	void **pp = (void **)ptr;
 	int hit = 0;
 	for (int i = 0; i < 3; i++)
-		if (*pp == (void *)POOL[i]) {
+		if (*pp == (void *)POOL(i)) {
 			hit = 1;
 			if (i >= g_allocs || (g_freed_mask & (1u << i)))
 				g_bad_free = 1;
@@ -408,7 +435,7 @@ errcode_t ext2fs_bmap2(ext2_filsys fs, ext2_ino_t ino, struct ext2_inode *inode,
 errcode_t ext2fs_read_dir_block4(ext2_filsys fs, blk64_t block, void *buf, int flags, ext2_ino_t ino)
 {
 	int n = g_reads;
-	__CPROVER_assert(n < 3 && n + 1 == g_bmaps && block == IN.pblk[n] && buf == (void *)POOL[n] && ino == IN.dir,
+	__CPROVER_assert(n < 3 && n + 1 == g_bmaps && block == IN.pblk[n] && buf == (void *)POOL(n) && ino == IN.dir,
 			 "CHECK:the block read is the one just mapped, into this level's frame buffer");
 	if (n >= 3)
 		return EXT2_ET_DIR_CORRUPTED;
@@ -443,10 +470,9 @@ void h_lookup(void)
 	errcode_t r;
 
 	LOAD_IN();
-	for (int i = 0; i < 3; i++) {
-		unsigned char nd[HX_BS];
-		__CPROVER_array_replace(POOL[i], nd);		/* arbitrary block contents */
-	}
+	{ unsigned char nd[HX_BS]; __CPROVER_array_replace(P0, nd); }	/* arbitrary block contents */
+	{ unsigned char nd[HX_BS]; __CPROVER_array_replace(P1, nd); }
+	{ unsigned char nd[HX_BS]; __CPROVER_array_replace(P2, nd); }
 	g_allocs = g_frees = g_bad_free = 0;
 	g_freed_mask = 0;
 	g_bmaps = g_reads = 0;
@@ -473,7 +499,7 @@ void h_lookup(void)
 	r = dx_lookup(&FS, IN.dir, &DIRI, &INFO);
 
 	int largedir = (IN.sb_incompat & EXT4_FEATURE_INCOMPAT_LARGEDIR) != 0;
-	unsigned hv = POOL[0][HX_ROOT_INFO + 4], il = POOL[0][HX_ROOT_INFO + 6];
+	unsigned hv = P0[HX_ROOT_INFO + 4], il = P0[HX_ROOT_INFO + 6];
 	if (r == 0) {
 		unsigned L = il + 1;
 		CHECK(hv <= 2, "only legacy, half-MD4 and TEA roots are walked");
@@ -488,7 +514,7 @@ void h_lookup(void)
 		for (unsigned l = 0; l < 3; l++) {
 			if (l >= L)
 				continue;
-			const unsigned char *b = POOL[l];
+			const unsigned char *b = POOL(l);
 			CHECK(IS_NODE_SHAPE(b) || IS_ROOT_SHAPE(b), "every walked block has a dx header");
 			unsigned eo = IS_NODE_SHAPE(b) ? HX_NODE_ENTRIES : HX_ROOT_ENTRIES;
 			unsigned count = HX_COUNT(b, eo), limit = HX_LIMIT(b, eo);
@@ -502,7 +528,7 @@ void h_lookup(void)
 			if (l + 1 < L)
 				CHECK(g_lblk[l + 1] == (HX_BLOCK(b, eo, a) & 0x0fffffff), "the next level is the child block of `at` (low 28 bits)");
 		}
-		if (L == 3 && HX_COUNT(POOL[2], 8) > 5) REACH("three levels");
+		if (L == 3 && HX_COUNT(P2, 8) > 5) REACH("three levels");
 		if (L == 1) REACH("root only");
 	} else {
 		CHECK(g_allocs == 0 || INFO.levels == 0, "on error no frame stays registered");
